@@ -2,8 +2,7 @@
    strings, and the small functions of /repo that make them equivalent.
 
    Uses the shared tokenizer model (unicodesub, normalize, normalize_u, lower, finish_token over
-   the regenerated regexes/tables) and the C03 builder's regenerated quoting helpers
-   (Gen/Quote.v: hstringvalue = helper.stringvalue, stringtokenvalue = util.Base._stringtokenvalue).
+   the regenerated regexes/tables).
    Hand-written here (line references to /repo/src/css_parser):
      priority_of        property.py:378        newpriority = self._normalize(new['literalpriority'])
      uritokenvalue      util.py:271-286        (after fix 7eb8545: content starts after the first paren)
@@ -11,7 +10,37 @@
    util.Base._normalizeatkeyword (commit a785d04, the key CSSRule._setAtkeyword and the @media dispatch compare) is
    normalize after unicodesub = Tokenizer.normalize_u; the harness ties the two on every at-keyword case.
    Definitions only; proofs are in RespellFacts.v.                                          *)
-From CssV Require Import Base Regex Gen.TokTables Gen.PyTables Tokenizer Quote Gen.Quote.
+From CssV Require Import Base Regex Gen.TokTables Gen.PyTables Tokenizer.
+
+(* ------------------------------------------------------------------ string helpers modelled here
+   helper.stringvalue (helper.py) and util.Base._stringtokenvalue (util.py) are the same expression
+   value.replace('\\' + value[0], value[0])[1:-1]; transcribed by hand (the C03 builder's Gen/Quote.v holds a
+   regenerated copy for its own theorems; this file does not depend on it) and compared with the implementation
+   by the S / H commands of the function-level correspondence.                                          *)
+Inductive res (A : Type) : Type := Ok (a : A) | Crash.      (* Crash = IndexError on value[0] *)
+Arguments Ok {A} a.
+Arguments Crash {A}.
+Definition py_index0 (x : str) : res N := match x with c :: _ => Ok c | [] => Crash end.
+(* x.replace(a, b), a non-empty: leftmost, non-overlapping; fuel S (length x) is never exhausted *)
+Fixpoint py_replace_fuel (fuel : nat) (x a b : str) : str :=
+  match fuel with
+  | O => x
+  | S f =>
+    match x with
+    | [] => []
+    | c :: x' => if starts a x then b ++ py_replace_fuel f (skipn (length a) x) a b
+                 else c :: py_replace_fuel f x' a b
+    end
+  end.
+Definition py_replace (x a b : str) : str := py_replace_fuel (S (length x)) x a b.
+Definition py_slice_nn (a b : nat) (x : str) : str := firstn (length x - a - b) (skipn a x).   (* x[a:len-b] *)
+Definition hstringvalue (v : str) : res str :=
+  match py_index0 v with Crash => Crash | Ok c => Ok (py_slice_nn 1 1 (py_replace v [92%N; c] [c])) end.
+Definition stringtokenvalue (t : option tok) : res (option str) :=
+  match t with
+  | Some t => match hstringvalue (val t) with Crash => Crash | Ok v => Ok (Some v) end
+  | None => Ok None
+  end.
 
 (* ------------------------------------------------------------------ character classes *)
 Definition hex_ranges : list (N * N) := [(48, 57); (97, 102); (65, 70)]%N.          (* [0-9a-fA-F] *)
